@@ -57,6 +57,8 @@ Section Hist.
     | None => True
     | Some su => su_acts su = build (p_cfg p) (firstn (su_n su) (p_adds p)) (su_chosen su) (su_fr su)
                  /\ su_n su <= List.length (p_adds p)
+                 /\ clash (p_cr p) (top_opts (p_cfg p) (firstn (su_n su) (p_adds p))) = false
+                 /\ clash (p_cr p) (acts_opts (su_acts su)) = false
     end.
   Definition Inv (s : state) : Prop := forall i p, slot_get (st_slots s) i = Some p -> pinv p.
 
@@ -72,12 +74,30 @@ Section Hist.
     destruct (reasserts f); [reflexivity|]. cbn in H. apply cfg_eqb_eq. exact H.
   Qed.
 
-  Lemma do_setup_inv g adds live args su :
-    do_setup g adds live args = Ok su ->
-    su_acts su = build g (firstn (su_n su) adds) (su_chosen su) (su_fr su) /\ su_n su <= List.length adds.
+  Lemma do_setup_inv g cr adds live args su :
+    do_setup g cr adds live args = Ok su ->
+    su_acts su = build g (firstn (su_n su) adds) (su_chosen su) (su_fr su) /\ su_n su <= List.length adds
+    /\ clash cr (top_opts g (firstn (su_n su) adds)) = false /\ clash cr (acts_opts (su_acts su)) = false.
   Proof.
-    unfold do_setup. destruct (choose g adds args) as [ch|e]; [|discriminate].
-    intro H. injection H as <-. cbn. rewrite firstn_all. split; [reflexivity | apply Nat.le_refl].
+    unfold do_setup. destruct (clash cr (top_opts g adds)) eqn:H1; [discriminate|].
+    destruct (choose g adds args) as [ch|e]; [|discriminate].
+    destruct (clash cr (acts_opts (build g adds ch live))) eqn:H2; [discriminate|].
+    intro H. injection H as <-. cbn. rewrite firstn_all. repeat split; try assumption. apply Nat.le_refl.
+  Qed.
+
+  (* what a failed set-up leaves satisfies the invariant: the parser as it was, or (flag set first) an empty set-up *)
+  Lemma after_failure_inv p live :
+    pinv p ->
+    match after_failure f p live with
+    | None => True
+    | Some su => su_acts su = build (p_cfg p) (firstn (su_n su) (p_adds p)) (su_chosen su) (su_fr su)
+                 /\ su_n su <= List.length (p_adds p)
+                 /\ clash (p_cr p) (top_opts (p_cfg p) (firstn (su_n su) (p_adds p))) = false
+                 /\ clash (p_cr p) (acts_opts (su_acts su)) = false
+    end.
+  Proof.
+    intros [_ Hs]. unfold after_failure. destruct (done_after_work f); [exact Hs|].
+    cbn. unfold clash. cbn. rewrite !andb_false_r. repeat split. apply Nat.le_0_l.
   Qed.
 
   Lemma added_ok p : pinv p -> (p_added p || p_cfgarg p) = true -> p_cfgarg p = true.
@@ -85,7 +105,7 @@ Section Hist.
     intros [Ha _] H. destruct (p_added p) eqn:E; [apply Ha; reflexivity | exact H].
   Qed.
 
-  Ltac psimpl := unfold pinv; cbn [fst snd p_cfg p_cfgarg p_adds p_setup p_cnt p_added p_live].
+  Ltac psimpl := unfold pinv; cbn [fst snd p_cfg p_cr p_cfgarg p_adds p_setup p_cnt p_added p_live].
 
   (* a parse keeps the invariant of its own parser *)
   Lemma parse_step_pinv g p argv :
@@ -100,21 +120,21 @@ Section Hist.
       destruct (History.parse_acts true (main_acts (p_added p || p_cfgarg p) su) _ args) as [r cnt1].
       psimpl. split; [intro H; exact (added_ok p Hp H)|]. rewrite Hc in Hs. exact Hs.
     - rewrite (setup_g_own g p Hb Hc).
-      destruct (do_setup (p_cfg p) (p_adds p) live1 args) as [su|e] eqn:Hd.
+      destruct (do_setup (p_cfg p) (p_cr p) (p_adds p) live1 args) as [su|e] eqn:Hd.
       + destruct (History.parse_acts true (main_acts (p_added p || p_cfgarg p) su) _ args) as [r cnt1].
         psimpl. split; [intro H; exact (added_ok p Hp H)|]. eapply do_setup_inv; exact Hd.
-      + psimpl. split; [intro H; exact (added_ok p Hp H) | exact Hs].
+      + psimpl. split; [intro H; exact (added_ok p Hp H) | exact (after_failure_inv p live1 Hp)].
   Qed.
 
-  Lemma help_step_pinv g p : pinv p -> b_spelling f g p = true -> pinv (snd (help_step g p)).
+  Lemma help_step_pinv g p : pinv p -> b_spelling f g p = true -> pinv (snd (fst (help_step g p))).
   Proof.
     intros Hp Hb. pose proof Hp as [Ha Hs]. unfold History.help_step.
     destruct (cached p) as [su|] eqn:Hc.
     - apply cached_some in Hc. psimpl. split; [exact Ha|]. rewrite Hc in Hs. exact Hs.
     - rewrite (setup_g_own g p Hb Hc).
-      destruct (do_setup (p_cfg p) (p_adds p) (p_live p) []) as [su|e] eqn:Hd; psimpl.
+      destruct (do_setup (p_cfg p) (p_cr p) (p_adds p) (p_live p) []) as [su|e] eqn:Hd; psimpl.
       + split; [exact Ha|]. eapply do_setup_inv; exact Hd.
-      + exact Hp.
+      + split; [exact Ha | exact (after_failure_inv p (p_live p) Hp)].
   Qed.
 
   Lemma set_inv s g i p' : Inv s -> pinv p' -> Inv (mkst g (slot_set (st_slots s) i p')).
@@ -128,15 +148,16 @@ Section Hist.
      about which the invariant says nothing) *)
   Lemma step_inv s o : Inv s -> op_benign f ftbl s o = true -> Inv (fst (step s o)).
   Proof.
-    intros HI Hb. destruct o as [i c ca | i d dest | i argv | i | i]; cbn [History.step].
+    intros HI Hb. destruct o as [i c cr ca | i d dest | i argv | i | i]; cbn [History.step].
     - cbn. apply set_inv; [exact HI|]. split; [cbn; discriminate | cbn; exact I].
     - destruct (slot_get (st_slots s) i) as [p|] eqn:Hg; [|exact HI]. cbn.
       pose proof (HI i p Hg) as [Ha Hs].
       apply set_inv; [exact HI|]. split; [exact Ha|]. cbn.
-      destruct (p_setup p) as [su|]; [|exact I]. destruct Hs as [Hs Hn]. split.
-      + rewrite firstn_app. replace (su_n su - List.length (p_adds p)) with 0 by lia.
-        cbn. rewrite app_nil_r. exact Hs.
-      + rewrite app_length. cbn. lia.
+      destruct (p_setup p) as [su|]; [|exact I]. destruct Hs as (Hs & Hn & Hc1 & Hc2).
+      assert (Hfn : firstn (su_n su) (p_adds p ++ [(d, dest)])%list = firstn (su_n su) (p_adds p)).
+      { rewrite firstn_app. replace (su_n su - List.length (p_adds p)) with 0 by lia.
+        cbn. rewrite app_nil_r. reflexivity. }
+      rewrite Hfn. repeat split; try assumption. rewrite app_length. cbn. lia.
     - destruct (slot_get (st_slots s) i) as [p|] eqn:Hg; [|exact HI].
       cbn in Hb. rewrite Hg in Hb.
       assert (Hsp : b_spelling f (st_g s) p = true).
@@ -147,7 +168,7 @@ Section Hist.
     - destruct (slot_get (st_slots s) i) as [p|] eqn:Hg; [|exact HI].
       cbn in Hb. rewrite Hg in Hb.
       pose proof (help_step_pinv (st_g s) p (HI i p Hg) Hb) as Hp'.
-      destruct (help_step (st_g s) p) as [g' p']. cbn in *.
+      destruct (help_step (st_g s) p) as [[g' p'] ho]. cbn in *.
       apply set_inv; assumption.
     - destruct (slot_get (st_slots s) i); exact HI.
   Qed.
@@ -179,6 +200,7 @@ Section Hist.
     assert (Hprep : prep q argv = prep p argv) by (symmetry; apply prep_new; exact Hde).
     assert (Hq1 : p_cfg q = p_cfg p) by reflexivity.
     assert (Hq2 : p_cfgarg q = p_cfgarg p) by reflexivity.
+    assert (Hq8 : p_cr q = p_cr p) by reflexivity.
     assert (Hq3 : p_adds q = p_adds p) by reflexivity.
     assert (Hq4 : p_setup q = None) by reflexivity.
     assert (Hq5 : p_cnt q = []) by reflexivity.
@@ -187,8 +209,8 @@ Section Hist.
     assert (Hown : setup_g (p_cfg p) q = p_cfg p).
     { unfold History.setup_g. rewrite Hq7, Hq1. destruct (reasserts f); reflexivity. }
     unfold History.parse_step.
-    rewrite Hprep, Hq1, Hq2, Hq3, Hq4, Hq5, Hq6, Hq7, Hown.
-    clearbody q. clear Hprep Hq1 Hq2 Hq3 Hq4 Hq5 Hq6 Hq7 Hown.
+    rewrite Hprep, Hq1, Hq2, Hq8, Hq3, Hq4, Hq5, Hq6, Hq7, Hown.
+    clearbody q. clear Hprep Hq1 Hq2 Hq8 Hq3 Hq4 Hq5 Hq6 Hq7 Hown.
     unfold b_frozen in Hfr.
     destruct (prep p argv) as [args [rl live1]].
     assert (Hc0 : (if tuple_counter_persists f then p_cnt p else []) = []).
@@ -204,18 +226,18 @@ Section Hist.
     rewrite Hadd.
     destruct (cached p) as [su|] eqn:Hc.
     - (* cached set-up: it is the one this call would have made *)
-      apply cached_some in Hc. rewrite Hc in Hs. destruct Hs as [Hacts Hle].
+      apply cached_some in Hc. rewrite Hc in Hs. destruct Hs as (Hacts & Hle & Hc1 & Hc2).
       apply andb_true_iff in Hfr as [Hfr Hlive]. apply andb_true_iff in Hfr as [Hn Hch].
       apply Nat.eqb_eq in Hn. apply kv_eqb_eq in Hlive.
-      assert (Hdo : do_setup (p_cfg p) (p_adds p) live1 args = Ok su).
+      assert (Hdo : do_setup (p_cfg p) (p_cr p) (p_adds p) live1 args = Ok su).
       { unfold do_setup. destruct (choose (p_cfg p) (p_adds p) args) as [ch|e]; [|discriminate].
-        apply kv_eqb_eq in Hch. destruct su as [acts chs fr n]. cbn in *. subst.
-        rewrite firstn_all. reflexivity. }
+        apply kv_eqb_eq in Hch. destruct su as [acts chs fr n]. cbn [su_n su_acts su_chosen su_fr] in *. subst.
+        rewrite firstn_all in *. rewrite Hc1, Hc2. reflexivity. }
       rewrite Hdo.
       destruct (History.parse_acts true (main_acts (false || p_cfgarg p) su) [] args) as [r cnt1].
       reflexivity.
     - rewrite (setup_g_own g p Hsp Hc).
-      destruct (do_setup (p_cfg p) (p_adds p) live1 args) as [su|e]; [|reflexivity].
+      destruct (do_setup (p_cfg p) (p_cr p) (p_adds p) live1 args) as [su|e]; [|reflexivity].
       destruct (History.parse_acts true (main_acts (false || p_cfgarg p) su) [] args) as [r cnt1].
       reflexivity.
   Qed.
@@ -264,6 +286,40 @@ Section Hist.
     destruct (slot_get _ i); [discriminate | reflexivity].
   Qed.
 
+  (* with the done-flag assigned LAST, a parser becomes "set up" only through a set-up that succeeded:
+     a set-up that raises leaves the parser as it was, and the next call redoes it *)
+  Lemma failed_setup_leaves_parser g p argv :
+    done_after_work f = true -> p_setup p = None ->
+    match p_setup (snd (fst (parse_step g p argv))) with
+    | None => True
+    | Some su => exists live args, do_setup (setup_g g p) (p_cr p) (p_adds p) live args = Ok su
+    end.
+  Proof.
+    intros Hd Hn. assert (Hc : cached p = None) by (unfold History.cached; rewrite Hn; reflexivity).
+    unfold History.parse_step. destruct (prep p argv) as [args [rl live1]].
+    destruct rl as [u|e]; [|psimpl; rewrite Hn; exact I].
+    destruct (p_cfgarg p && p_added p && cfgarg_every_parse f); [psimpl; rewrite Hn; exact I|].
+    rewrite Hc.
+    destruct (do_setup (setup_g g p) (p_cr p) (p_adds p) live1 args) as [su|e] eqn:Hdo.
+    - destruct (History.parse_acts true (main_acts (p_added p || p_cfgarg p) su) _ args) as [r cnt1].
+      psimpl. exists live1, args. exact Hdo.
+    - psimpl. unfold after_failure. rewrite Hd, Hn. exact I.
+  Qed.
+
+  Lemma failed_help_leaves_parser g p :
+    done_after_work f = true -> p_setup p = None ->
+    match p_setup (snd (fst (help_step g p))) with
+    | None => True
+    | Some su => do_setup (setup_g g p) (p_cr p) (p_adds p) (p_live p) [] = Ok su
+    end.
+  Proof.
+    intros Hd Hn. assert (Hc : cached p = None) by (unfold History.cached; rewrite Hn; reflexivity).
+    unfold History.help_step. rewrite Hc.
+    destruct (do_setup (setup_g g p) (p_cr p) (p_adds p) (p_live p) []) as [su|e] eqn:Hdo; psimpl.
+    - reflexivity.
+    - unfold after_failure. rewrite Hd, Hn. exact I.
+  Qed.
+
   (* every clause of `benign` is guarded by its switch: with all five repaired, every history is benign *)
   Lemma benign_when_repaired : all_repaired f = true -> forall ops s, benign_from f ftbl s ops = true.
   Proof.
@@ -303,6 +359,7 @@ Definition K3 := mkdc "K3" [mkf "my_x" FInt "int:1"; mkf "pair" FTup "tuple(int:
 Definition K4 := mkdc "K4" [mkf "my_x" FInt "int:1";
   mkf "model" (FSub [mkalt "ma" "MA" "lr_a" "int:3"; mkalt "mb" "MB" "size_b" "int:5"] "ma") ""].
 Definition L1 := mkdc "L1" [mkf "other_y" FInt "int:2"].
+Definition L3 := mkdc "L3" [mkf "my_x" FInt "int:5"].
 Definition FILES : list (string * kv) := [("c1.json", [("a.my_x", "int:7")]); ("c2.json", [("a.my_x", "int:8")])].
 Definition cfg_dash : cfg := mkcfg DDash GFlat NDefault.
 Definition cfg_nested : cfg := mkcfg DUnderscore GNested NDefault.
@@ -340,7 +397,7 @@ Proof.
   unfold witness. intros H HF.
   destruct (nth_error ops k) as [[| |j a| |]|] eqn:Hk; try discriminate.
   destruct (def_at f ftbl ops k i) as [d|] eqn:Hd; try discriminate.
-  destruct (nth_error (obs_from f ftbl init ops) k) as [[| | |r]|] eqn:Ho; try discriminate.
+  destruct (nth_error (obs_from f ftbl init ops) k) as [[| | |r|e]|] eqn:Ho; try discriminate.
   apply andb_true_iff in H as [H Hne]. apply andb_true_iff in H as [Hi Ha].
   apply Nat.eqb_eq in Hi. subst j. apply list_eq_strb_eq in Ha. subst a.
   specialize (HF ops k i argv d Hk Hd). rewrite Ho in HF. injection HF as ->.
@@ -352,54 +409,70 @@ Ltac refute_with ops k i argv :=
 
 (* (#10) constructing another parser overwrites the spelling the first one will be set up with *)
 Definition ops_spelling : list op :=
-  [Construct 0 cfg_dash false; AddArgs 0 K1 "a"; Construct 1 init_cfg false; Parse 0 ["--my-x"; "4"]].
+  [Construct 0 cfg_dash CRAuto false; AddArgs 0 K1 "a"; Construct 1 init_cfg CRAuto false; Parse 0 ["--my-x"; "4"]].
 Theorem refuted_spelling : forall f, reasserts f = false -> ~ history_full f FILES.
 Proof.
-  intros [r c s t d] H; cbn in H; subst r.
-  destruct c, s, t, d; refute_with ops_spelling 3 0 ["--my-x"; "4"].
+  intros [r c s t d w] H; cbn in H; subst r.
+  destruct c, s, t, d, w; refute_with ops_spelling 3 0 ["--my-x"; "4"].
 Qed.
 
 (* (#11) the second parse of a parser with a config-path argument re-adds --config_path *)
 Definition ops_cfgarg : list op :=
-  [Construct 0 init_cfg true; AddArgs 0 K1 "a"; Parse 0 []; Parse 0 []].
+  [Construct 0 init_cfg CRAuto true; AddArgs 0 K1 "a"; Parse 0 []; Parse 0 []].
 Theorem refuted_cfgarg : forall f, cfgarg_every_parse f = true -> ~ history_full f FILES.
 Proof.
-  intros [r c s t d] H; cbn in H; subst c.
-  destruct r, s, t, d; refute_with ops_cfgarg 3 0 (@nil string).
+  intros [r c s t d w] H; cbn in H; subst c.
+  destruct r, s, t, d, w; refute_with ops_cfgarg 3 0 (@nil string).
 Qed.
 
 (* (#12) the tuple converter's counter is past the item types on the second parse *)
 Definition ops_tuple : list op :=
-  [Construct 0 init_cfg false; AddArgs 0 K3 "a"; Parse 0 ["--pair"; "3"; "x"]; Parse 0 ["--pair"; "3"; "x"]].
+  [Construct 0 init_cfg CRAuto false; AddArgs 0 K3 "a"; Parse 0 ["--pair"; "3"; "x"]; Parse 0 ["--pair"; "3"; "x"]].
 Theorem refuted_tuple : forall f, setup_cached f = true -> tuple_counter_persists f = true -> ~ history_full f FILES.
 Proof.
-  intros [r c s t d] H1 H2; cbn in H1, H2; subst s t.
-  destruct r, c, d; refute_with ops_tuple 3 0 ["--pair"; "3"; "x"].
+  intros [r c s t d w] H1 H2; cbn in H1, H2; subst s t.
+  destruct r, c, d, w; refute_with ops_tuple 3 0 ["--pair"; "3"; "x"].
 Qed.
 
 (* (#13) the subgroup choice is frozen by the first argv ... *)
 Definition ops_frozen_argv : list op :=
-  [Construct 0 init_cfg false; AddArgs 0 K4 "a"; Parse 0 ["--model"; "mb"]; Parse 0 ["--model"; "ma"]].
+  [Construct 0 init_cfg CRAuto false; AddArgs 0 K4 "a"; Parse 0 ["--model"; "mb"]; Parse 0 ["--model"; "ma"]].
 Theorem refuted_frozen_by_argv : forall f, setup_cached f = true -> ~ history_full f FILES.
 Proof.
-  intros [r c s t d] H; cbn in H; subst s.
-  destruct r, c, t, d; refute_with ops_frozen_argv 3 0 ["--model"; "ma"].
+  intros [r c s t d w] H; cbn in H; subst s.
+  destruct r, c, t, d, w; refute_with ops_frozen_argv 3 0 ["--model"; "ma"].
 Qed.
 (* ... or by print_help() *)
 Definition ops_frozen_help : list op :=
-  [Construct 0 init_cfg false; AddArgs 0 K4 "a"; PrintHelp 0; Parse 0 ["--model"; "mb"]].
+  [Construct 0 init_cfg CRAuto false; AddArgs 0 K4 "a"; PrintHelp 0; Parse 0 ["--model"; "mb"]].
 Theorem refuted_frozen_by_help : forall f, setup_cached f = true -> ~ history_full f FILES.
 Proof.
-  intros [r c s t d] H; cbn in H; subst s.
-  destruct r, c, t, d; refute_with ops_frozen_help 3 0 ["--model"; "mb"].
+  intros [r c s t d w] H; cbn in H; subst s.
+  destruct r, c, t, d, w; refute_with ops_frozen_help 3 0 ["--model"; "mb"].
 Qed.
 
 (* (#5') defaults read from a config file by a call that failed are still there in the next call *)
 Definition ops_defaults : list op :=
-  [Construct 0 init_cfg true; AddArgs 0 K1 "a"; Parse 0 ["--config_path"; "c1.json"; "nofile.json"]; Parse 0 []].
+  [Construct 0 init_cfg CRAuto true; AddArgs 0 K1 "a"; Parse 0 ["--config_path"; "c1.json"; "nofile.json"]; Parse 0 []].
 Theorem refuted_defaults : forall f, defaults_persist f = true -> ~ history_full f FILES.
 Proof.
-  intros [r c s t d] H; cbn in H; subst d.
-  destruct r, c, s, t; refute_with ops_defaults 3 0 (@nil string).
+  intros [r c s t d w] H; cbn in H; subst d.
+  destruct r, c, s, t, w; refute_with ops_defaults 3 0 (@nil string).
 Qed.
 
+(* (seeded C08-03) the done-flag set before the work: a set-up that raised (invalid subgroup key) is never redone *)
+Definition ops_failed_setup : list op :=
+  [Construct 0 init_cfg CRAuto false; AddArgs 0 K4 "a"; Parse 0 ["--model"; "zz"]; Parse 0 []].
+Theorem refuted_failed_setup : forall f, setup_cached f = true -> done_after_work f = false -> ~ history_full f FILES.
+Proof.
+  intros [r c s t d w] H1 H2; cbn in H1, H2; subst s w.
+  destruct r, c, t, d; refute_with ops_failed_setup 3 0 (@nil string).
+Qed.
+(* ... likewise a ConflictResolutionError (NONE mode, two dataclasses sharing a field name): raised once, then gone *)
+Definition ops_failed_setup_cre : list op :=
+  [Construct 0 init_cfg CRNone false; AddArgs 0 K1 "a"; AddArgs 0 L3 "b"; Parse 0 []; Parse 0 []].
+Theorem refuted_failed_setup_cre : forall f, setup_cached f = true -> done_after_work f = false -> ~ history_full f FILES.
+Proof.
+  intros [r c s t d w] H1 H2; cbn in H1, H2; subst s w.
+  destruct r, c, t, d; refute_with ops_failed_setup_cre 4 0 (@nil string).
+Qed.
